@@ -224,6 +224,8 @@ GEN = {
                 "Gen_Schema_AddTwoWayRel_differs_without_unique_names"],
     "GenC07": ["Gen_deduceRoute_nil", "Gen_deduceRoute_take5", "Gen_deduceRoute_col", "Gen_deduceRoute_res",
                "Gen_deduceRoute_related", "Gen_deduceRoute_self"],
+    "GenC07b": ["Gen_Type_Fields_eq", "Gen_NewParams_eq", "Gen_NewParams_differs_on_empty_rule", "Gen_NewURL_eq",
+                "Gen_NewSimpleURL_eq", "Gen_NewSimpleURL_nil", "Gen_NewSimpleURL_rules_nonempty"],
 }
 GEN_WHAT = {
     "GenC16": "Rel.Invert, Rel.Normalize, Rel.String and relLess",
@@ -234,9 +236,10 @@ GEN_WHAT = {
     "GenC14": "GetAttrType and GetAttrTypeString",
     "GenC03": "buildSelfLink and buildRelationshipLinks",
     "GenC07": "deduceRoute",
+    "GenC07b": "Type.Fields, NewParams (params.go), NewURL (url.go) and NewSimpleURL (simple_url.go; (*url.URL).Query and the two json.Unmarshal calls of the filter parameter are parameters, the keys of the values map are distinct), over structures generated from the Go struct declarations; NewParams and NewURL under the hypothesis that no sorting rule is the empty string - the code reads urule[0] and panics there, the model does not: a checked counterexample - which NewSimpleURL's results satisfy",
 }
 GEN_USERS = {"C16": ["GenC16"], "C10": ["GenC10"], "C09": ["GenC10"], "C14": ["GenC14", "GenC15", "GenC14b"], "C15": ["GenC15"], "C12": ["GenC15"], "C17": ["GenC14"], "C19": ["GenC14"],
-             "C03": ["GenC03"], "C04": ["GenC03"], "C07": ["GenC07", "GenC08"], "C08": ["GenC08"]}
+             "C03": ["GenC03"], "C04": ["GenC03"], "C07": ["GenC07", "GenC08", "GenC07b"], "C08": ["GenC08", "GenC07b"]}
 for _pid, _mods in GEN_USERS.items():
     _c = PROPS[_pid]
     _c["modules"] = list(_c.get("modules", [_pid])) + _mods
